@@ -86,6 +86,23 @@ def shape_of(it):
     return it['k']
 
 
+def leaves(it):
+    if it['k'] in ('L', 'W'):
+        for x in it['items']:
+            yield from leaves(x)
+    else:
+        yield it
+
+
+def regime(top, width, over):
+    """Normal form of a level (i) case for violation keys: flat / nested, whether the list uses + (bracket
+    wrapped), a literal with a doubled quote, and whether every leaf fits on a continuation line together with a
+    two-character separator (`items-fit`) or some leaf is about as long as the line (`item-near-line`)."""
+    nested = any(x['k'] in ('L', 'W') for x in top['items'])
+    fit = all(len(leaf_text(x)) + 2 + over <= width for x in leaves(top))
+    return ('nested' if nested else 'flat') + ':' + ('items-fit' if fit else 'item-near-line')
+
+
 # --------------------------------------------------------------------------------- repository corpus
 def repo_fortran_sources():
     """Fortran sources shipped with the repository: loki/**/sources, test directories and the examples."""
@@ -112,8 +129,7 @@ def gfortran_syntax(workdir, tag, sources, width=132, timeout=120):
             fh.write(text)
         names.append(name)
     try:
-        c = subprocess.run(['gfortran', f'-ffree-line-length-{width}', '-Werror=line-truncation', '-fsyntax-only', '-w',
-                            '-Werror=line-truncation'] + names, cwd=d, capture_output=True, text=True, timeout=timeout)
+        c = subprocess.run(['gfortran', f'-ffree-line-length-{width}', '-Werror=line-truncation', '-fsyntax-only'] + names, cwd=d, capture_output=True, text=True, timeout=timeout)
     except subprocess.TimeoutExpired:
         return None, 'timeout'
     return c.returncode == 0, c.stderr[-2500:]
